@@ -225,4 +225,26 @@ PROPS["C10"] = {
     "level_note": "M(sig, content) uninterpreted in gate proofs; re/hashlib trusted; engine and z3 trusted.",
 }
 
+PROPS["C17"] = {
+    "contracts": ["contracts/C17_surveillance.py"],
+    "level": "other",
+    "extra": [{"name": "C17/bounded[fingerprints across bounds x histories; Treg table; 40 training windows]", "kind": "bounded", "tiers": ("quick",),
+               "cmd": ["/venv/bin/python", "native/c17_bounded.py"]},
+              {"name": "C17/bounded[... 400 training windows]", "kind": "bounded", "tiers": ("thorough",), "timeout": 3000,
+               "cmd": ["/venv/bin/python", "native/c17_bounded.py", "--thorough"]}],
+    "assumptions": ["the canary-accuracy minimum is part of the trained baseline (BaselineProfile.check treats it as a violation)",
+                    "tolerance-rule conditions are havocked callables; ALERT is outside the IGNORE<MONITOR<ISOLATE<SHUTDOWN scale and excluded (TCell never produces it)",
+                    "MHCDisplay.generate_peptide, ImmuneMemory.recall_by_hashes/store and ToleranceRecord.record_inspection are havocked collaborators in ImmuneSystem.inspect; "
+                    "TCell.inspect, BaselineProfile.check and RegulatoryTCell.evaluate are used through their proved contracts",
+                    "self-tolerance right after training (Thymus.train + statistics over the window) is NOT under contract: bounded stand-in over seeded random windows"],
+    "trusted_base": ["statistics / hashlib / re inside generate_peptide (bounded part only)"],
+    "explanation": "Deductive part: BaselineProfile.check returns no violation exactly when the fingerprint is inside the baseline (all 648 paths); TCell.inspect: CONFIRMED/CRITICAL "
+                   "only with a baseline violation AND an independent second signal, inside-baseline is NONE/IGNORE for every flag/counter state, anergy is silent; Treg: CRITICAL "
+                   "untouched, at most one step down; ImmuneSystem.inspect: the RETURNED response (including the memory path) acts only on a current violation and never "
+                   "for a desensitised watcher, Treg keeps the threat level. Bounded part: fingerprints at and across every bound x operation sequences, rule tables, "
+                   "train-then-inspect and return-to-baseline on seeded random observation windows.",
+    "level_text": "Mixed proof + bounded (training statistics are external).",
+    "level_note": "Collaborators havocked as listed; engine and z3 trusted.",
+}
+
 NOT_APPLICABLE = {}
